@@ -439,16 +439,26 @@ def check_stack(rec, cands, xfs, nc, rng, n_random=200, flavour=('list', 'int'))
                         _case(rec, lower=lo, upper=up, api=api, fold_case=rec.get('case'))))
     # ---- e: invariance to per-RDM positive rescaling (cosine type) / affine maps (correlation type)
     for t in xfs:
-        v2 = np.array([(t[r][0] * val[r] + t[r][1]) / t[r][2] for r in range(nr)])
+        # x |-> (a x + b) / c * 10^e, one transformation per data RDM (e down to -26: SI units of MEG)
+        v2 = np.array([(t[r][0] * val[r] + t[r][1]) / t[r][2] * (10.0 ** t[r][3] if len(t[r]) > 3 else 1.0) for r in range(nr)])
         try:
-            lo2, up2 = boot_noise_ceiling(make_rdms(v2, nc, flavour), method=m, rdm_descriptor=by)
+            rd2 = make_rdms(v2, nc, flavour)
+            if api == 'boot':
+                lo2, up2 = boot_noise_ceiling(rd2, method=m, rdm_descriptor=by)
+            else:
+                _, ts2, cs2 = CVS.call_generator(rec['case'], rd2, flavour)
+                lo2, up2 = cv_noise_ceiling(rd2, cs2, ts2, method=m, pattern_descriptor=(rec['case']['byP'] or 'index'))
         except Exception as ex:
-            out.append((f'C07/raises/boot_noise_ceiling/{m}/{type(ex).__name__}', f'{type(ex).__name__}: {ex}', _case(rec, xf=t)))
+            out.append((f'C07/raises/{fn}/{m}/{type(ex).__name__}', f'{type(ex).__name__}: {ex}', _case(rec, xf=t)))
             continue
         n_eval += 1
-        if abs(lo2 - lo) > TOL or abs(up2 - up) > TOL:
+        if degenerate:
+            continue        # a pool that cancels to zero has no direction: its similarities are rounding noise
+        if not (abs(lo2 - lo) <= TOL and abs(up2 - up) <= TOL):
             kind = 'rescaling' if m in ('cosine', 'cosine_cov') else 'affine'
-            out.append((f'C07/e/not-invariant-to-{kind}/{m}', 'bounds change when individual data RDMs are transformed',
+            extreme = '/extreme-factor' if any(len(x) > 3 and x[3] != 0 for x in t) else ''
+            where = '' if api == 'boot' else 'cv_noise_ceiling/'
+            out.append((f'C07/e/{where}not-invariant-to-{kind}/{m}{extreme}', 'bounds change when individual data RDMs are transformed',
                         _case(rec, xf=t, before=[lo, up], after=[float(lo2), float(up2)])))
     return out, n_eval, stats
 
@@ -622,8 +632,15 @@ def _protocol(rec, items, lo, up, api, case):
     return out, got
 
 
+def _merge(a, b):
+    """violations of two stages, one per key"""
+    seen = {x[0] for x in a}
+    return a + [x for x in b if x[0] not in seen]
+
+
 def check_proto(rec, const, flavour, method, seed):
-    """one protocol case.  Returns (violations, n_eval, n_sensitive)."""
+    """one protocol case.  Returns (violations, n_eval, n_sensitive, reached): reached = 1 iff the case got as far as the
+    perturbation replay (cases that already report a violation stop before it)."""
     from harness.core import MachineryError
     c, api = rec['case'], rec['api']
     a = CVS.src_abs(c['src'], const['NR'], const['NC'], set())
@@ -638,11 +655,13 @@ def check_proto(rec, const, flavour, method, seed):
     except S.DrawMismatch as ex:
         raise MachineryError(f'shuffle mismatch replaying {c}: {ex}')
     except Exception as ex:
-        return [(f'C07/raises/{api}/{type(ex).__name__}', f'{type(ex).__name__}: {ex}', dict(case, method=tmeth))], 1, 0
-    out, _ = _protocol(rec, assemble(tap, value_tokens), lo, up, api, dict(case, method=tmeth, data='tokens'))
+        return [(f'C07/raises/{api}/{type(ex).__name__}', f'{type(ex).__name__}: {ex}', dict(case, method=tmeth))], 1, 0, 0
+    # (a failing VALUE clause - bounds that are not the fold averages - does not stop the case: what was pooled and compared
+    # is still inspected and perturbed; only a failing structural clause makes the later stages meaningless)
+    out, got_t = _protocol(rec, assemble(tap, value_tokens), lo, up, api, dict(case, method=tmeth, data='tokens'))
     n_eval = 1
-    if out:
-        return out, n_eval, 0
+    if got_t is None:
+        return out, n_eval, 0, 0
     # ---------------- the same with random data (deps read off the labels), then perturbation replay
     rng = np.random.default_rng(seed)
     nr, nc = const['NR'], const['NC']
@@ -655,11 +674,12 @@ def check_proto(rec, const, flavour, method, seed):
     try:
         lo, up, its = run(base)
     except Exception as ex:
-        return [(f'C07/raises/{api}/{type(ex).__name__}', f'{type(ex).__name__}: {ex}', case)], n_eval, 0
-    out, got = _protocol(rec, its, lo, up, api, dict(case, data='random'))
+        return [(f'C07/raises/{api}/{type(ex).__name__}', f'{type(ex).__name__}: {ex}', case)], n_eval, 0, 0
+    out2, got = _protocol(rec, its, lo, up, api, dict(case, data='random'))
+    out = _merge(out, out2)
     n_eval += 1
-    if out:
-        return out, n_eval, 0
+    if got is None:
+        return out, n_eval, 0, 0
     # ---------------- the values: pool / compare applied to the objects the SPECIFICATION assigns to every fold
     # (lower: training RDMs at the test conditions; upper: all data RDMs [cv: at the test conditions])
     from rsatoolbox.util.inference_util import pool_rdm as _pool
@@ -687,8 +707,6 @@ def check_proto(rec, const, flavour, method, seed):
         if abs(np.mean(ups) - up) > 1e-12:
             out.append((f'C07/a/{api}/upper-value', 'upper bound is not the average similarity of Pool(all data RDMs at the test conditions) to the test RDMs',
                         dict(case, upper=up, spec=float(np.mean(ups)))))
-    if out:
-        return out, n_eval, 0
 
     def preds(vals):
         _, _, its_ = run(vals)
@@ -735,7 +753,7 @@ def check_proto(rec, const, flavour, method, seed):
         p1 = preds(alt)
         if p1[f] is None or not np.array_equal(p0[f], p1[f], equal_nan=True):
             sensitive += 1
-    return out, n_eval, sensitive
+    return out, n_eval, sensitive, 1
 
 
 # --------------------------------------------------------------------------- I -> S
